@@ -304,15 +304,16 @@ def part_mem_passes(ctx):
     levels = ["gas"] if quick else ["gas", "codesize", "O3"]
     with Observer(max_insts=700 if quick else 1500) as obs:
         nfail = compile_corpus(progs, levels, obs)
+    ctx.log(f"  c14m: build+compile {time.time()-t0:.0f}s, {len(obs.records)} changed invocations")
     for e in obs.errors[:3]:
         ctx.violation("correspondence-broken", "cannot export a pass invocation: " + e, {"errors": obs.errors[:5]})
     recs = obs.records
-    if quick and len(recs) > 60:
+    if quick and len(recs) > 44:
         # the invocations on the priority programs first, then a seeded sample
         prio = {c["name"] for c in progs if c.get("prio") == 0}
-        head = [r for r in recs if r["context"][0] in prio][:36]
+        head = [r for r in recs if r["context"][0] in prio][:28]
         rest = [r for r in recs if r not in head]
-        recs = head + rnd.sample(rest, min(len(rest), 60 - len(head)))
+        recs = head + rnd.sample(rest, min(len(rest), 44 - len(head)))
     stats = {"invocations": dict(obs.n_invocations), "changed": dict(obs.n_changed), "distinct_changed_exported": len(obs.records),
              "evaluated": len(recs), "too_big_skipped": obs.skipped_big, "compile_failures": nfail, "programs": len(progs), "levels": levels,
              "verdicts": {}}
@@ -323,6 +324,7 @@ def part_mem_passes(ctx):
         except RuntimeError as e:
             ctx.violation("correspondence-broken", "the validators of the memory passes could not be evaluated", {"error": str(e)[-1500:]})
             recs = []
+    ctx.log(f"  c14m: validators evaluated at {time.time()-t0:.0f}s")
     entries = {c["name"]: c for c in progs}
     reported = 0
     searched = {}
@@ -330,6 +332,9 @@ def part_mem_passes(ctx):
         if v == "rejected" and r["new_phis"]:
             v = "unsupported"              # LoadElimination merged values with a new phi: outside the validator's domain
             r["why"] = "phi insertion"
+        if v == "rejected" and any(c["before"].split("= ")[-1].startswith("dload ") for c in r["changes"]):
+            v = "unsupported"              # dload is a pseudo instruction (lowered to codecopy + mload of scratch memory later)
+            r["why"] = "dload forwarding"
         d = stats["verdicts"].setdefault(r["pass_name"], {"accepted": 0, "unsupported": 0, "rejected": 0})
         d[v] += 1
         if v != "rejected":
